@@ -165,6 +165,16 @@ func leafValues(lf fLeaf) (field string, rval, cval any) {
 		}
 		rval = ordValue(lf.Kind, lf.Null, lf.RV, lf.Table)
 		cval = ordValue(lf.Kind, lf.Null, lf.CV, lf.Table)
+		// the same instant written in another zone is the same value
+		if lf.Kind == jsonapi.AttrTypeTime && !lf.CV.Nil {
+			zone := time.FixedZone("", 3600*(lf.Table%23-11)+1800)
+			if t, ok := cval.(time.Time); ok {
+				cval = t.In(zone)
+			} else if p, ok := cval.(*time.Time); ok {
+				t2 := p.In(zone)
+				cval = &t2
+			}
+		}
 	}
 	return
 }
